@@ -38,6 +38,9 @@ def run(ctx):
         dscommon.run_family(ctx, "C11", fmt="text", limit=40, always_nontrivial=True, fresh=True)
         dscommon.run_family(ctx, "C11All", fmt="text", always_nontrivial=True)
         dscommon.run_family(ctx, "C11Sel", fmt="text", always_nontrivial=True)
+        # two files whose lists of runs differ (a common run sits at different positions in them): slices of every input, on fresh objects and on one
+        dscommon.run_family(ctx, "C11Two", fmt="text", always_nontrivial=True)
+        dscommon.run_family(ctx, "C11Two", fmt="netcdf", always_nontrivial=True, fresh=False)
         # the buckets of a dataset are its own: another dataset (other runs, other lead times) is opened in the same process before the slices are asked for
         dscommon.run_family(ctx, "C11", fmt="text", limit=40, variant={"decoy": True}, always_nontrivial=True, fresh=False)
         dscommon.run_family(ctx, "C11All", fmt="text", variant={"decoy": True}, always_nontrivial=True, fresh=False)
@@ -51,6 +54,9 @@ def run(ctx):
         dscommon.run_family(ctx, "C11All", fmt="netcdf", always_nontrivial=True)
         dscommon.run_family(ctx, "C11Sel", fmt="text", always_nontrivial=True)
         dscommon.run_family(ctx, "C11Sel", fmt="netcdf", always_nontrivial=True)
+        dscommon.run_family(ctx, "C11Two", fmt="text", always_nontrivial=True)
+        dscommon.run_family(ctx, "C11Two", fmt="netcdf", always_nontrivial=True, fresh=False)
+        dscommon.run_family(ctx, "C11Two", fmt="text", variant={"decoy": True}, always_nontrivial=True, fresh=False)
         dscommon.run_family(ctx, "C11", fmt="text", variant={"decoy": True}, always_nontrivial=True, fresh=False)
         dscommon.run_family(ctx, "C11All", fmt="text", variant={"decoy": True}, always_nontrivial=True, fresh=False)
         calreplay.run(ctx, "MC_Calendar_full")
